@@ -28,13 +28,17 @@ class Accumulator(Module):
         # cached state access
         def calc_pos():
             if len(self._pos):
-                return self.reduce(torch.stack([*self._pos], 0), 0)
+                return self.reduce(
+                    torch.stack(torch.broadcast_tensors(*self._pos), 0), 0
+                )
             else:
                 return None
 
         def calc_neg():
             if len(self._neg):
-                return self.reduce(torch.stack([*self._neg], 0), 0)
+                return self.reduce(
+                    torch.stack(torch.broadcast_tensors(*self._neg), 0), 0
+                )
             else:
                 return None
 
